@@ -20,6 +20,9 @@ c14.nest_complex and the structural family `extra_programs` below):
              counts, generated Derivation constraints, excluded_derived and the error flag are
              inputs read from the real block; designs that need weight desugaring must be
              answered `unsupported`.
+             Statistics `input_ok*`: on how many of the recorded `_create` arguments Front/CreateOk.v `input_ok`
+             holds - the condition under which Front/CreateWf.v proves wf_layout / wf_trials of the created
+             record (driver command `inputok`).
 Search (the property itself, independent of the model):
   * `docsem.doc_sem(program).T` - the documented arithmetic (weighted crossing size,
     minus excluded / impossible combinations when complete crossing is not required,
@@ -356,6 +359,32 @@ def createflat_observation(rec, st, blk):
            r["rcc"], _A(r["mode"]), _A(al), excl, derivs, frec[13], frec[15]]
     expected = "(ok %s)" % to_wire(_sorted_geoms(frec)) if same_design else "(error unsupported)"
     return "(createflat %s)" % to_wire(inp), expected
+
+
+def inputok_line(createflat_line):
+    """the same recorded _create arguments for the driver command `inputok` (Front/CreateOk.v `input_ok`: the condition under which
+    Front/CreateWf.v proves the guards wf_layout / wf_trials of the created record)"""
+    assert createflat_line.startswith("(createflat ")
+    return "(inputok " + createflat_line[len("(createflat "):]
+
+
+INPUTOK_PARTS = ("windows", "exclusions", "sustains", "strides", "sustains-consistent")
+
+
+def inputok_count(stats, expected_createflat, mod):
+    """statistics only: on how many real blocks' recorded _create arguments `input_ok` holds (and which condition fails otherwise)"""
+    toks = mod.replace("(", " ").replace(")", " ").split()
+    if len(toks) != 1 + len(INPUTOK_PARTS) or any(t not in ("true", "false") for t in toks):
+        stats["input_ok:unreadable"] = stats.get("input_ok:unreadable", 0) + 1
+        return
+    supported = expected_createflat.startswith("(ok")
+    key = "input_ok" if toks[0] == "true" else "not-input_ok"
+    stats[key] = stats.get(key, 0) + 1
+    if supported:
+        stats[key + ":createflat-ok"] = stats.get(key + ":createflat-ok", 0) + 1
+    for name, t in zip(INPUTOK_PARTS, toks[1:]):
+        if t == "false":
+            stats["not-input_ok:" + name] = stats.get("not-input_ok:" + name, 0) + 1
 
 
 # --------------------------------------------------------------------------- real-side observations of the trial arithmetic
@@ -795,6 +824,8 @@ def run(ctx, res):
                 cl, ce = createflat_observation(rec, st, blk)
                 lines.append(cl)
                 expect.append(("createflat", ce, p))
+                lines.append(inputok_line(cl))
+                expect.append(("inputok", ce, p))
             except Exception as e:  # noqa
                 found.append(("harness", "harness error in createflat_observation: %s %s" % (type(e).__name__, str(e)[:200]), {}, p, False))
             for fi, size, val in trreq_cases(blk):
@@ -885,6 +916,8 @@ def run(ctx, res):
                     stats.get("createflat:" + ("unsupported-desugar" if mod.startswith("(error") else "ok"), 0) + 1
             else:
                 corr_bad.append(("createflat", p, first_diff(real, mod), ""))
+        elif kind == "inputok":
+            inputok_count(stats, real, mod)
         elif kind == "trials":
             mv = model_trials_view(mod)
             ok = (real == mv)
